@@ -116,6 +116,24 @@ def _worker(job):
                     back = 'raised:' + type(e).__name__
                 if back != name:
                     problems.append('round trip: %r -> %r -> %r' % (name, g, back))
+    # the same names through other spellings of the search path: the current directory written '' (as sys.path[0] is in
+    # the REPL and under -c) or '.', entries that do not exist or are files in front of it
+    cwd = os.getcwd()
+    try:
+        os.chdir(root)
+        for sp, label in (([''], "['']"), (['.'], "['.']"), ([os.path.join(root, 'no_such_dir'), ''], "[<missing dir>, '']"),
+                          ([os.path.join(root, 'a.py'), root], '[<a file>, root]')):
+            for name in NAMES:
+                try:
+                    got = util_import.modname_to_modpath(name, sys_path=sp)
+                    got = None if got is None else rel(root, os.path.abspath(got))
+                except Exception as e:
+                    got = 'raised:' + type(e).__name__
+                base = [o[2] for o in obs if o[0] == 'm2p' and o[1] == name][0]
+                if got != base:
+                    problems.append('modname_to_modpath(%r, sys_path=%s) = %r, but %r with the absolute root' % (name, label, got, base))
+    finally:
+        os.chdir(cwd)
     for comps, isd in tree:
         p = os.path.join(root, *comps)
         if isd and not os.path.exists(os.path.join(p, '__init__.py')):
